@@ -4,6 +4,7 @@ import (
 	"context"
 	"fmt"
 
+	"github.com/anishathalye/porcupine"
 	consensusclient "github.com/attestantio/go-eth2-client"
 	"github.com/attestantio/go-eth2-client/api"
 	apiv1 "github.com/attestantio/go-eth2-client/api/v1"
@@ -11,7 +12,6 @@ import (
 	"github.com/attestantio/go-eth2-client/spec/deneb"
 	"github.com/attestantio/go-eth2-client/spec/phase0"
 	cache "github.com/attestantio/vouch/services/cache/standard"
-	"github.com/anishathalye/porcupine"
 	"github.com/rs/zerolog"
 	"pgregory.net/rapid"
 
